@@ -279,6 +279,9 @@ struct nameserver {
 				     /* Valid if state == 0 */
 	/* Outstanding probe request for this nameserver, if any */
 	struct evdns_request *probe_request;
+	/* the probe whose result is queued (deferred callback) but has not
+	 * been delivered to nameserver_probe_callback() yet */
+	struct evdns_request *probe_report;
 	char state;  /* zero if we think that this server is down */
 	char choked;  /* true if we have an EAGAIN from this server's socket */
 	char write_waiting;  /* true if we are waiting for EV_WRITE events */
@@ -1046,6 +1049,25 @@ reply_run_callback(struct event_callback *d, void *user_pointer)
 	mm_free(handle);
 }
 
+static void nameserver_probe_callback(int result, char type, int count, int ttl, void *addresses, void *arg);
+
+/* The result of a probe that is still queued when its nameserver goes away
+ * is delivered to nobody. */
+static void
+nameserver_probe_orphan_callback(int result, char type, int count, int ttl, void *addresses, void *arg)
+{
+	(void)result; (void)type; (void)count; (void)ttl; (void)addresses; (void)arg;
+}
+
+static void
+nameserver_forget_probe_report(struct nameserver *ns)
+{
+	if (ns->probe_report) {
+		ns->probe_report->user_callback = nameserver_probe_orphan_callback;
+		ns->probe_report = NULL;
+	}
+}
+
 static void
 reply_schedule_callback(struct request *const req, u32 ttl, u32 err, struct reply *reply)
 {
@@ -1065,6 +1087,16 @@ reply_schedule_callback(struct request *const req, u32 ttl, u32 err, struct repl
 	}
 
 	handle->pending_cb = 1;
+	if (handle->user_callback == nameserver_probe_callback &&
+	    err != DNS_ERR_CANCEL && err != DNS_ERR_SHUTDOWN) {
+		/* This report is going to touch the nameserver: remember it, so
+		 * that freeing the nameserver before the deferred callback
+		 * runs can disarm it.  (A report that is still queued is
+		 * superseded.) */
+		struct nameserver *ns = handle->user_pointer;
+		nameserver_forget_probe_report(ns);
+		ns->probe_report = handle;
+	}
 
 	event_deferred_cb_init_(
 	    &handle->deferred,
@@ -3142,7 +3174,10 @@ nameserver_probe_callback(int result, char type, int count, int ttl, void *addre
 		return;
 	}
 
+	/* (a nameserver that is freed while this report is queued replaces the
+	 * callback, see nameserver_forget_probe_report(): ns is alive here) */
 	EVDNS_LOCK(ns->base);
+	ns->probe_report = NULL;
 	ns->probe_request = NULL;
 	if (result == DNS_ERR_NONE || result == DNS_ERR_NOTEXIST) {
 		/* this is a good reply */
@@ -3260,6 +3295,7 @@ evdns_base_clear_nameservers_and_suspend(struct evdns_base *base)
 			evdns_cancel_request(server->base, server->probe_request);
 			server->probe_request = NULL;
 		}
+		nameserver_forget_probe_report(server);
 		if (server->socket >= 0)
 			evutil_closesocket(server->socket);
 		mm_free(server);
@@ -5126,6 +5162,7 @@ evdns_nameserver_free(struct nameserver *server)
 		evdns_cancel_request(server->base, server->probe_request);
 		server->probe_request = NULL;
 	}
+	nameserver_forget_probe_report(server);
 	event_debug_unassign(&server->timeout_event);
 	disconnect_and_free_connection(server->connection);
 	mm_free(server);
